@@ -1,6 +1,6 @@
 SPECIFICATION Spec
-CONSTANTS Depth = 3
- MaxSize = 8
+CONSTANTS Depth = 2
+ MaxSize = 7
  CoreSize = 3
 INVARIANT TermOK
 INVARIANT NonVacuous
